@@ -144,6 +144,8 @@ def deterministic_class(prog):
     no engine command racing live branches, no partial join (known finding), no failing guard"""
     if partial_joins(prog):
         return False
+    if 'bad' in json.dumps(prog) or '"nope"' in json.dumps(prog):
+        return False        # a failing expression force-fails the workflow while other branches are live
     rc = wfgen.route_counts(prog)
     for t in prog['tasks']:
         if t.get('join') is None and rc[t['name']] > 1:
